@@ -21,6 +21,7 @@ def build(H, tier, seed):
     for cls in ('OperatorDict', 'UnaryOperatorDict', 'Registry'):
         D.vc_getitem(H, cls)
     D.vc_call_dispatch(H)
+    D.vc_call_nary(H)
     D.vc_call_binary(H)
     D.vc_unary_call(H)
     D.vc_registry_call(H)
